@@ -47,10 +47,11 @@ def gen(rng, tier):
     fams = sorted({f for f, _ in mem})
     picks = [rng.choice([x for x in mem if x[0] == f]) for f in fams] + [mem[rng.randrange(len(mem))] for _ in range(2 if tier == "quick" else 40)]
     for fam, m in picks:
-        for d in range(0, 7):
-            for op in (["P", "C", "A0", "X0", "I0", "D"] if tier == "quick" else ["P", "C", "A0", "X0", "X1", "I0", "D", "N", "RX"]):
-                pre = rng.choice([[], ["P", "C", "A0"], ["P", "C", "A0", "N"]])
-                yield Case("bip44", [fam, m, "-", hx(seed), ",".join(pre + ["RR%d" % d, op])], "reimport-depth")
+        for pre in ([], ["P", "C", "A0"], ["P", "C", "A0", "N"]):       # re-import of a private master, a private account, a public-only account
+            for d in range(0, 7):
+                full = ["P", "C", "A0", "X0", "I0", "D"] if tier == "quick" else ["P", "C", "A0", "X0", "X1", "I0", "D", "N", "RX"]
+                for op in (full if not pre or tier == "thorough" else ["P", "X0", "D"]):
+                    yield Case("bip44", [fam, m, "-", hx(seed), ",".join(pre + ["RR%d" % d, op])], "reimport-depth")
     # random histories
     for i in range(120 if tier == "quick" else 6000):
         fam, m = mem[rng.randrange(len(mem))]
